@@ -273,15 +273,18 @@ struct Registrar
 // allocation (and the start), so ASan faults on the first byte outside.
 struct Exact
 {
-    uint8_t *p;
+    uint8_t *base; // what was allocated
+    uint8_t *p;    // the n usable bytes, flush against the end of the allocation
     size_t n;
-    explicit Exact(size_t n_) : p((uint8_t *)::operator new(n_ ? n_ : 0)), n(n_) {}
+    // ASan turns a zero-size request into one addressable byte, which would hide a read of
+    // an empty buffer: an empty block is the one-past-the-end pointer of a 1-byte allocation.
+    explicit Exact(size_t n_) : base((uint8_t *)::operator new(n_ ? n_ : 1)), p(n_ ? base : base + 1), n(n_) {}
     Exact(const void *src, size_t n_) : Exact(n_)
     {
         if (n_)
             memcpy(p, src, n_);
     }
-    ~Exact() { ::operator delete(p); }
+    ~Exact() { ::operator delete(base); }
     Exact(const Exact &) = delete;
     Exact &operator=(const Exact &) = delete;
     char *c() { return (char *)p; }
